@@ -42,10 +42,10 @@ func extScripted() [][]extOp {
 		tag += 2
 	}
 	a = append(a, extOp{A: "WriteAt", P: "a", Off: 6, Len: 9, Tag: tag}, extOp{A: "WriteAt", P: "b", Off: 19, Len: 3, Tag: tag + 1}, extOp{A: "WriteAt", P: "a", Off: 50, Len: 2, Tag: tag + 2},
-		extOp{A: "Churn", P: "d", K: 60}, extOp{A: "Symlink", P: "l", T: "t59"}, extOp{A: "Symlink", P: "d/l", T: "t4095"}, extOp{A: "BigFile", K: 300},
+		extOp{A: "Churn", P: "d", K: 60}, extOp{A: "Churn2", P: "d", K: 24}, extOp{A: "Symlink", P: "l", T: "t59"}, extOp{A: "Symlink", P: "d/l", T: "t4095"}, extOp{A: "BigFile", K: 300},
 		extOp{A: "Chmod", P: "a", V: "4711"}, extOp{A: "Chown", P: "d", V: "65536", W: "4294967295"}, extOp{A: "Chtimes", P: "b", V: "2147483648", W: "86399"},
 		extOp{A: "Remove", P: "a"}, extOp{A: "Remove", P: "l"}, extOp{A: "Churn", P: "", K: 40}, extOp{A: "Remove", P: "d/l"}, extOp{A: "Remove", P: "d"}, extOp{A: "Remove", P: "b"}, extOp{A: "BigFile", K: 40})
-	b := []extOp{{A: "Create", P: "a"}, {A: "WriteAt", P: "a", Off: 9, Len: 1, Tag: 1}, {A: "Symlink", P: "l", T: "t60"}, {A: "Symlink", P: "l", T: "t1"}, {A: "Mkdir", P: "d"}, {A: "Symlink", P: "d/l", T: "t61"},
+	b := []extOp{{A: "Create", P: "a"}, {A: "WriteAt", P: "a", Off: 9, Len: 1, Tag: 1}, {A: "Symlink", P: "l", T: "t60"}, {A: "Symlink", P: "l", T: "t1"}, {A: "Mkdir", P: "d"}, {A: "Churn2", P: "d", K: 24}, {A: "Symlink", P: "d/l", T: "t61"},
 		{A: "Create", P: "d/a"}, {A: "Append", P: "d/a", Len: 5, Tag: 2}, {A: "Remove", P: "d"}, {A: "Remove", P: "d/l"}, {A: "Remove", P: "d/a"}, {A: "Remove", P: "d"}, {A: "Mkdir", P: "d"}, {A: "Symlink", P: "d/l", T: "abs"}, {A: "BigFile", K: 5}}
 	return [][]extOp{a, b}
 }
@@ -187,6 +187,7 @@ func extConfigs(tier string) []extCfg {
 	cfgs := []extCfg{
 		{Size: 20 * MiB, Start: 0, Journal: true},
 		{Size: 16 * MiB, Start: MiB, SPB: 8, Journal: false, Checksum: true, Extra: "noresize"},
+		{Size: 12 * MiB, Start: 4096, SPB: 2, Journal: false, Checksum: true},
 	}
 	if tier == "thorough" {
 		cfgs = append(cfgs, extCfg{Size: 24 * MiB, Start: 512, SPB: 2, Journal: false}, extCfg{Size: 64 * MiB, Start: 5 << 30, SPB: 8, Journal: true, Checksum: true, Extra: "noresize"}, extCfg{Size: 40 * MiB, Start: 0, SPB: 4, Journal: true, Checksum: true, Extra: "noresize"})
